@@ -303,6 +303,38 @@ def check(model, rep, tier):
             'the lambda must be located in the parse of the unmodified, whole '
             'source file', line=pl.node.lineno)
 
+  # signature narrowing compares every parameter group with its counterpart
+  nm = model.func(PARSER, '_node_matches_argspec')
+  np_, fp_ = nm.params()[:2]
+  pairs = set()
+  for c in ast.walk(nm.node):
+    if isinstance(c, ast.Compare) and len(c.ops) == 1 and isinstance(
+        c.ops[0], (ast.NotEq, ast.Eq)):
+      sides = [tpl.xnorm(nm, c.left, c), tpl.xnorm(nm, c.comparators[0], c)]
+      spec = [x for x in sides if 'getfullargspec' in x or '__code__' in x]
+      node_side = [x for x in sides if (np_ + '.args.') in x]
+      if len(spec) == 1 and len(node_side) == 1:
+        sattr = spec[0].split('getfullargspec(%s).' % fp_)[-1].rstrip(')') if \
+            'getfullargspec' in spec[0] else spec[0].split('__code__.')[-1]
+        fields = tuple(sorted({f for f in ('posonlyargs', 'args', 'vararg', 'kwarg',
+                                           'kwonlyargs')
+                               if ('%s.args.%s' % (np_, f)) in node_side[0] and not (
+                                   f == 'args' and ('%s.args.args' % np_) not in
+                                   node_side[0])}))
+        pairs.add((sattr, fields))
+  want = {('args', ('args', 'posonlyargs')), ('varargs', ('vararg',)),
+          ('varkw', ('kwarg',)), ('kwonlyargs', ('kwonlyargs',)),
+          ('co_posonlyargcount', ('posonlyargs',))}
+  rep.check(want <= pairs, 'SRC-LAMBDA', '%s:compares-every-parameter-group' % nm.site,
+            'when several lambdas share a line the candidate is chosen by '
+            'signature: positional (positional-only included, and their count), '
+            '*args, **kwargs and keyword-only names must each be compared with '
+            'their own counterpart, or a different lambda is silently returned',
+            {'comparisons': sorted(map(str, pairs)), 'missing': sorted(map(
+                str, want - pairs))}, line=nm.node.lineno,
+            witness='(lambda x, /, y: x - y), (lambda x, y: x + y) on one line; '
+            'lambda *opts / lambda **opts')
+
   # ---------------------------------------------------------------- SRC-GETTER
   gs = model.func(IU, 'getimmediatesource')
   calls = [core.dotted(c.func) for c in ast.walk(gs.node) if isinstance(c, ast.Call)]
